@@ -141,6 +141,55 @@ def impl_schema(ast, schema):
     return (";".join(decls), ";".join(fields))
 
 
+ANALYZER_RS = pathlib.Path("/repo/pdl-compiler/src/analyzer.rs")
+
+# Panic sites of the model ("<line>:<function>:<expression>") re-located in the
+# CURRENT analyzer.rs by a piece of source text: (text, which occurrence, line offset).
+# The line prefix in the Coq sources is only the position at the time of writing;
+# other people land fixes in /repo that shift the file.
+SITE_TEXT = {
+    "Size::add:lhs + rhs": ("Size::Static(lhs + rhs)", 1, 0),
+    "Size::mul:lhs * rhs": ("Size::Static(lhs) => Size::Static(lhs * rhs)", 1, 0),
+    "annotate_decl:8 * *size": ("Some(8 * *size)", 1, 0),
+    "annotate_field:scope.get(type_id).unwrap()": ("let type_key = scope.get(type_id).unwrap();", 1, 0),
+    "annotate_field:scope.get(type_id).unwrap() (array element)": ("let type_key = scope.get(type_id).unwrap();", 2, 0),
+    "annotate_field:*size * *width": ("Size::Static(*size * *width)", 1, 0),
+    "Schema::decl_size:self.decl_size[&key]": ("self.decl_size[&key]", 1, 0),
+    "check_constraint:constraint.value.unwrap()": ("constraint.value.unwrap()", 2, 0),
+    "check_constraint:unreachable!()": ("Some(_) => unreachable!()", 1, 0),
+    "check_field_offsets:offset + size": ("Size::Static(size) => offset + size", 1, 0),
+    "check_decl_sizes:static_size += ..": ("static_size += schema.field_size", 1, 0),
+    "inline_fields:constraints.get(id).unwrap().value.unwrap()": ("constraints.get(id).unwrap().value.unwrap()", 1, 0),
+    "inline_fields:constraint.tag_id.unwrap()": ("and_then(|constraint| constraint.tag_id.clone())", 1, 1),
+    "desugar_flags:field.id().unwrap()": ("field.id().unwrap().to_owned(), cond.value.unwrap()", 1, 0),
+    "desugar_flags:cond.value.unwrap()": ("field.id().unwrap().to_owned(), cond.value.unwrap()", 1, 0),
+}
+
+_site_lines = None
+
+
+def site_line(site):
+    """the line of a model panic site in the current analyzer.rs"""
+    global _site_lines
+    if _site_lines is None:
+        _site_lines = {}
+        try:
+            src = ANALYZER_RS.read_text().split("\n")
+        except OSError:
+            src = []
+        for key, (text, nth, off) in SITE_TEXT.items():
+            hits = [i + 1 for i, ln in enumerate(src) if text in ln]
+            if len(hits) >= nth:
+                _site_lines[key] = hits[nth - 1] + off
+    prefix, _, key = site.partition(":")
+    if key in _site_lines:
+        return _site_lines[key]
+    try:
+        return int(prefix)
+    except ValueError:
+        return None
+
+
 def model_outcome(status, parts):
     if status == "ok":
         parts = list(parts) + [""] * 4
@@ -149,11 +198,7 @@ def model_outcome(status, parts):
         return ("rejected", parts[0] if parts else "")
     if status == "panic":
         site = parts[0] if parts else ""
-        try:
-            line = int(site.split(":")[0])
-        except ValueError:
-            line = None
-        return ("panic", line, site)
+        return ("panic", site_line(site), site)
     return ("other", status, parts)
 
 
